@@ -23,6 +23,9 @@ type targetPanic struct {
 
 // rtPanic constructs a run-time error panic of the target program.
 func (i *Interp) rtPanic(msg string) targetPanic {
+	if debugAssert && i.cur != nil {
+		msg += " @ " + i.cur.where()
+	}
 	return targetPanic{iface{i.P.rtErrType, "runtime error: " + msg}}
 }
 
@@ -83,6 +86,7 @@ type Interp struct {
 	funcsRun map[*ssa.Function]struct{}
 	stack    []value
 	sp       int
+	cur      *frame
 }
 
 func (fr *frame) get(o *opnd) value {
@@ -270,8 +274,11 @@ func visitInstr(fr *frame, ci *cinstr) bool {
 
 	case *ssa.Send:
 		ch := fr.get(&ci.ops[0]).(*chanv)
+		if ch != nil && ch.closed {
+			panic(targetPanic{iface{i.P.rtErrType, "send on closed channel"}})
+		}
 		if ch == nil || len(ch.buf) >= ch.cap {
-			panic(engineAbort{kind: "unsupported", msg: "blocking channel send"})
+			panic(engineAbort{kind: "unsupported", msg: "channel send would block (sequential schedule)"})
 		}
 		ch.buf = append(ch.buf, fr.get(&ci.ops[1]))
 
@@ -299,7 +306,11 @@ func visitInstr(fr *frame, ci *cinstr) bool {
 		*defers = &deferred{fn: fn, args: args, tail: *defers}
 
 	case *ssa.Go:
-		panic(engineAbort{kind: "unsupported", msg: "go statement at " + i.P.prog.prog.Fset.Position(instr.Pos()).String()})
+		// One legal schedule: the new goroutine runs to completion (or until
+		// it would block, which is reported as unsupported) before its parent
+		// continues.
+		fn, args := prepareCall(fr, &instr.Call, ci.ops)
+		i.call(fr, instr.Pos(), fn, args)
 
 	case *ssa.MakeChan:
 		n := i.concInt(fr.get(&ci.ops[0]), instr.Size.Type())
@@ -381,7 +392,7 @@ func visitInstr(fr *frame, ci *cinstr) bool {
 		fr.regs[ci.dst] = &closure{instr.Fn.(*ssa.Function), bindings}
 
 	case *ssa.Select:
-		panic(engineAbort{kind: "unsupported", msg: "select statement"})
+		fr.regs[ci.dst] = i.selectStmt(fr, instr, ci)
 
 	default:
 		panic(fmt.Sprintf("unexpected instruction: %T", instr))
@@ -438,7 +449,11 @@ func (i *Interp) callSSA(caller *frame, fn *ssa.Function, args []value, env []va
 		return cf.ext(fr, args)
 	}
 	if cf.blocks == nil {
-		panic(engineAbort{kind: "unsupported", msg: "no code for function: " + cf.name})
+		w := ""
+		if caller != nil {
+			w = " @ " + caller.where()
+		}
+		panic(engineAbort{kind: "unsupported", msg: "no code for function: " + cf.name + w})
 	}
 	if fn.TypeParams().Len() > 0 && len(fn.TypeArgs()) == 0 {
 		panic(engineAbort{kind: "unsupported", msg: "uninstantiated generic " + cf.name})
@@ -517,6 +532,7 @@ func runFrame(fr *frame) {
 
 	i := fr.i
 	for {
+		i.cur = fr
 		blk := fr.block
 		instrs := blk.instrs
 		if blk.nphi > 0 {
